@@ -151,9 +151,11 @@ def solve_one(args):
     total = 0
     detail = []
     order = []
-    if has_strings:
+    if "(forall" in smt2:
+        order = [("z3", budget_ms)]       # cvc5 1.0.3 gives up on quantifiers + arrays at once
+    elif has_strings:
         order = [("cvc5", budget_ms), ("z3", budget_ms)]
-    else:
+    elif not order:
         order = [("z3", budget_ms), ("cvc5", budget_ms)]
     for name, ms in order:
         if name == "z3":
